@@ -129,6 +129,8 @@ fn families_of(prop: &str, tier: Tier) -> Vec<Cfg> {
             e.io = IoMenu::partial();
             e.cancel = true;
             rich(&mut e);
+            // (nine filters: a SUBSCRIBE / UNSUBSCRIBE with a two-byte remaining length right behind a short packet)
+            e.sub_counts = vec![1, 3, 9];
             e.max_ops = if q { 4 } else { 5 };
             e.max_conns = 2;
             e.max_reqs = 2;
@@ -336,7 +338,19 @@ fn families_of(prop: &str, tier: Tier) -> Vec<Cfg> {
             f.max_conns = 2;
             f.max_reqs = 10;
             f.dev = 0;
-            vec![a, b, c, d, e, f]
+            // the arena so full of unacknowledged publishes that a CONNECT hardly fits (or does not: then connect()
+            // refuses - C12's recorded finding - but whatever connects with the session present must replay)
+            let mut g = Cfg::base("C02-arena-nearly-full");
+            g.props = vec!["C02"];
+            g.tx = 96;
+            g.payload_sizes = vec![80, 60, 2];
+            g.ops = vec![OpK::Pub1, OpK::Poll, OpK::DropConn];
+            g.io = IoMenu::faults_only();
+            g.max_ops = 5;
+            g.max_conns = 3;
+            g.max_reqs = 2;
+            g.dev = 1;
+            vec![a, b, c, d, e, f, g]
         }
         "C03" => {
             let mut a = Cfg::base("C03-qos2-orders-and-crashes");
@@ -553,6 +567,18 @@ fn families_of(prop: &str, tier: Tier) -> Vec<Cfg> {
             x.max_conns = if q { 3 } else { 4 };
             x.max_reqs = 2;
             x.dev = 0;
+            // the identifier counter has come round exactly to its initial value when a fresh session begins
+            let mut w = Cfg::base("C05-fresh-session-after-the-identifier-counter-wrapped");
+            w.props = vec!["C05"];
+            w.ops = vec![OpK::Pub1, OpK::Sub, OpK::Poll, OpK::Age, OpK::DropConn];
+            w.io = IoMenu::benign();
+            w.broker.may_lose_session = true;
+            w.age_targets = vec![1, 2, 65535];
+            w.max_ops = if q { 7 } else { 8 };
+            w.max_conns = if q { 2 } else { 3 };
+            w.max_reqs = 2;
+            w.dev = 0;
+            w.watchdog_calls = 600;
             let mut r = Cfg::base("C05-rich-packets-large-connect");
             r.must_reach = vec!["CONNECT of more than 127 bytes", "fresh broker session while requests were in flight", "replay of several packets on a resumed connection"];
             r.props = vec!["C05"];
@@ -578,9 +604,9 @@ fn families_of(prop: &str, tier: Tier) -> Vec<Cfg> {
                 b.family = "C05-handshake-variants-four-connections";
                 b.dev = 1;
                 a.max_conns = 3;
-                return vec![a, b, r, n, x];
+                return vec![a, b, r, n, x, w];
             }
-            vec![a, r, n, x]
+            vec![a, r, n, x, w]
         }
         "C06" => {
             let mut v = Vec::new();
@@ -631,6 +657,16 @@ fn families_of(prop: &str, tier: Tier) -> Vec<Cfg> {
             su.broker.ack_fail = true;
             su.max_ops = if q { 7 } else { 9 };
             su.max_conns = 1;
+            // ... and across a resumed reconnect (the window of the new connection counts what is still in flight)
+            let mut sr = su.clone();
+            sr.family = "C06-subscribe-and-unsubscribe-traffic-then-resumed";
+            sr.ops = vec![OpK::Pub1, OpK::Pub2, OpK::Sub, OpK::Unsub, OpK::Poll, OpK::DropConn];
+            sr.broker.reorder_window = 1;
+            sr.broker.ack_fail = false;
+            sr.max_ops = if q { 8 } else { 9 };
+            sr.max_conns = 2;
+            sr.max_reqs = if q { 5 } else { 6 };
+            v.push(sr);
             su.max_reqs = if q { 5 } else { 6 };
             su.dev = 0;
             v.push(su);
@@ -1246,6 +1282,17 @@ fn families_of(prop: &str, tier: Tier) -> Vec<Cfg> {
             a.max_conns = if q { 2 } else { 3 };
             a.max_reqs = 3;
             a.dev = if q { 1 } else { 2 };
+            // the broker lowers its Receive Maximum below what is in flight when the session is resumed: everything
+            // accepted must still complete
+            let mut rl = Cfg::base("C16-receive-maximum-lowered-on-resume");
+            rl.props = vec!["C16"];
+            rl.ops = vec![OpK::Pub1, OpK::Pub2, OpK::Poll, OpK::DropConn];
+            rl.io = IoMenu::benign();
+            rl.broker.receive_max = vec![Some(3), Some(2), Some(1)];
+            rl.max_ops = if q { 7 } else { 9 };
+            rl.max_conns = if q { 2 } else { 3 };
+            rl.max_reqs = if q { 3 } else { 4 };
+            rl.dev = 0;
             let mut b = Cfg::base("C16-handshake-failures");
             b.props = vec!["C16"];
             b.ops = vec![OpK::Pub1, OpK::Pub2, OpK::Sub, OpK::Poll, OpK::DropConn];
@@ -1358,7 +1405,7 @@ fn families_of(prop: &str, tier: Tier) -> Vec<Cfg> {
             sk.max_conns = 2;
             sk.max_reqs = 1;
             sk.dev = 0;
-            vec![a, b, c, d, e, f, g, h, i, j, sk]
+            vec![a, b, c, d, e, f, g, h, i, j, sk, rl]
         }
         "C18" => {
             let mut a = Cfg::base("C18-status-after-every-step");
@@ -1448,7 +1495,19 @@ fn families_of(prop: &str, tier: Tier) -> Vec<Cfg> {
             g.max_conns = if q { 3 } else { 4 };
             g.max_reqs = 2;
             g.dev = 0;
-            vec![a, b, c, d, e, f, g]
+            // the identifier counter has come round exactly to its initial value when a fresh session begins
+            let mut w = Cfg::base("C18-fresh-session-after-the-identifier-counter-wrapped");
+            w.props = vec!["C18"];
+            w.ops = vec![OpK::Pub1, OpK::Sub, OpK::Poll, OpK::Age, OpK::DropConn];
+            w.io = IoMenu::benign();
+            w.broker.may_lose_session = true;
+            w.age_targets = vec![1, 2, 65535];
+            w.max_ops = if q { 7 } else { 8 };
+            w.max_conns = if q { 2 } else { 3 };
+            w.max_reqs = 2;
+            w.dev = 0;
+            w.watchdog_calls = 600;
+            vec![a, b, c, d, e, f, g, w]
         }
         _ => vec![],
     }
@@ -1460,7 +1519,7 @@ fn rich(c: &mut Cfg) {
     c.tx = 1024;
     c.payload_sizes = vec![2, 130];
     c.pub_shapes = vec![0, 1, 2];
-    c.sub_counts = vec![1, 3];
+    c.sub_counts = vec![1, 3, 9];
     c.big_connect = true;
     c.io.all_partials_upto = 4;
     c.payload_kinds = vec![0, 1];
